@@ -333,6 +333,8 @@ def pair_laws(seed, count):
     def mk():
         k = rng.randint(0, 5)
         a, b = rng.randint(0, 3), rng.randint(0, 3)
+        if rng.random() < .4:      # integers that are not interned, built at run time
+            a = int(str(rng.randint(257, 10 ** 12)))
         if k == 0:
             return ("F", a, a + 1 + b, rng.random() < .5, rng.random() < .5, rng.choice(sts))
         if k == 1:
@@ -348,6 +350,7 @@ def pair_laws(seed, count):
     for _ in range(count):
         ta = mk()
         tb = ta if rng.random() < .3 else mk()
+        tb = tuple(int(str(v)) if (isinstance(v, int) and not isinstance(v, bool)) else v for v in tb)
         a, b = build(ta), build(tb)
         try:
             eq = (a == b)
